@@ -201,10 +201,14 @@ class Runner(object):
             d = by_project[project]
             m.auth_ctx.set_ctx(world.user_ctx(project))
             try:
+                ns = d.get('namespace', defs.get('namespace', ''))
+                scope = d.get('scope', 'private')
                 for wb in d.get('workbooks') or []:
-                    m.wb_service.create_workbook_v2(wb)
+                    m.wb_service.create_workbook_v2(wb, namespace=ns,
+                                                    scope=scope)
                 for wf in d.get('workflows') or []:
-                    m.wf_service.create_workflows(wf)
+                    m.wf_service.create_workflows(wf, namespace=ns,
+                                                  scope=scope)
                 for env in d.get('environments') or []:
                     with m.db_api.transaction():
                         m.db_api.create_environment(dict(env))
